@@ -701,7 +701,21 @@ impl<H: Hooks> Gen<H> {
                     return Ok(2);
                 }
                 _ if INSERTS.contains(&op) => match self.pick_pair(&v) {
-                    Some((a, b)) => format!("{} {} {}", op, a, b),
+                    Some((a, b)) => {
+                        // now and then an argument is not the id kept from creation but the id the arena reports
+                        // for that slot (`get_node_id` of the stored node): the same id for a live node, the slot's
+                        // removed stamp for a removed one
+                        let look = |h: usize, ex: &Exec| ex.cur.issued.get(h).map(|id| format!("g{}", usize::from(*id)));
+                        let r = self.rng.unit();
+                        let (sa, sb) = if r < 0.04 {
+                            (look(a, &self.ex).unwrap_or(a.to_string()), b.to_string())
+                        } else if r < 0.08 {
+                            (a.to_string(), look(b, &self.ex).unwrap_or(b.to_string()))
+                        } else {
+                            (a.to_string(), b.to_string())
+                        };
+                        format!("{} {} {}", op, sa, sb)
+                    }
                     None => continue,
                 },
                 _ => continue,
